@@ -51,6 +51,11 @@ func runC14(c *core.Ctx) {
 	ruleMailboxSerial(c, "C14.serial")
 	c.Doc("C14.typed", "generated onPropertyChange rejects undecodable bytes; generated Get<Prop> checks the signature first", 4)
 	ruleTypedProperties(c)
+	// what the generated validator hook, getter, setter and publisher decode / encode is the
+	// signature the property is declared with (instance level, rules shared with C05)
+	ruleValidatorDecodesDeclared(c, "C14.typed")
+	ruleStatedAccessors(c, "C14.typed")
+	ruleStatedEmitters(c, "C14.typed")
 	// one change event per accepted write to each subscriber: the emission
 	// loop serves every subscriber, and the client forwards only Event
 	// messages (rules shared with C13)
